@@ -8,7 +8,7 @@ CHECKS="${*:-$P}"
 W=/var/tmp/par$N
 [ -d $W/repo ] || git -C /repo worktree add -q --detach $W/repo HEAD || exit 2
 git -C $W/repo checkout -q --detach "$(git -C /repo rev-parse HEAD)" 2>/dev/null
-git -C $W/repo checkout -q -- . ; git -C $W/repo clean -fdq
+git -C $W/repo reset -q --hard; git -C $W/repo clean -fdq
 mkdir -p $W/verif && rsync -a --delete --exclude .git --exclude evidence /verif/ $W/verif/
 R=$W/repo
 cp "$D/demo_test.go" $R/larking/zz_mutdemo_test.go
